@@ -715,6 +715,18 @@ ScanBody(s, w, start, del) ==
       st5   == ScanFixChild(s4, w, pas, maxn)
   IN st1 \o st2 \o st3 \o st4 \o st5
 
+\* ---------------------------------------------------------------------
+\* ViewScan — owner::get_rewind_hash / owner::scan_rewind_hash: what somebody holding the rewind hash of
+\* wallet w's seed (a view wallet) is shown: every unspent output of that seed at or above the start height,
+\* with value, height, coinbase flag and lock height, and their total.  Reads the chain only; no wallet
+\* record is consulted or written.
+\* ---------------------------------------------------------------------
+ViewScan(s, w, start) ==
+  LET O == ScanOwned(s, w, start) IN
+  [outs  |-> {[o |-> o, v |-> s.reg[o].v, h |-> HeightOfOut(s, o), cb |-> s.reg[o].cb,
+               lk |-> IF s.reg[o].cb THEN HeightOfOut(s, o) + Maturity ELSE HeightOfOut(s, o)] : o \in O},
+   total |-> SumF([o \in O |-> s.reg[o].v], O)]
+
 \* snapshot entries with an expired TTL are cancelled one by one; an error
 \* propagates out of update_wallet_state (transcribed)
 RECURSIVE TtlCancelSteps(_, _, _, _)
